@@ -292,7 +292,8 @@ def conversation(rng, names, all_carriers=None):
                 t = twins[k % len(twins)]
                 if x["call"]["h"] == "raw" or G.idval(t):
                     x["call"]["id"] = copy.deepcopy(t)
-    return {"xs": xs, "style": style(rng), "D": 5120, "tie": rng.choice(TIES), "wire": wire(rng, xs)}
+    return {"xs": xs, "style": style(rng), "D": 5120, "tie": rng.choice(TIES), "wire": wire(rng, xs),
+            "via": rng.choice(["cm", "cm", "transport"])}   # the *_client context manager, or the Transport class
 
 
 def small_notifs(n, tag="b"):
@@ -386,6 +387,118 @@ def cases(rng, count, names):
     return out
 
 
+# ------------------------------------------------------------------------------- MCPClient
+
+CLIENT_OPS = ["init", "list_tools", "call_tool", "list_resources", "read_resource", "list_prompts", "get_prompt"]
+
+
+def supported_versions():
+    from chuk_mcp.protocol.messages.initialize.send_messages import SUPPORTED_VERSIONS
+    return list(SUPPORTED_VERSIONS)
+
+
+def init_answer(rng):
+    """how an `initialize` request is answered; `expect` = how `send_initialize` must end
+    ({"ok": version}: returns unless the library does not support the version; {"raise": why})"""
+    r = rng.random()
+    info = {"name": text(rng), "version": "1"}
+    ns = [notif(rng) for _ in range(rng.choice([0, 0, 1]))]
+    if r < 0.55:
+        v = rng.choice(supported_versions())
+        return {"notifs": ns, "reply": {"result": {"protocolVersion": v, "capabilities": {}, "serverInfo": info}}, "expect": {"ok": v}}
+    if r < 0.7:
+        v = rng.choice(["1999-01-01", "2099-12-31", "2025-6-18", "latest", ""])
+        return {"notifs": ns, "reply": {"result": {"protocolVersion": v, "capabilities": {}, "serverInfo": info}}, "expect": {"ok": v}}
+    if r < 0.85:
+        return {"notifs": ns, "reply": error_reply(rng), "expect": {"raise": "error-reply"}}
+    bad = rng.choice([{"protocolVersion": "2025-06-18", "capabilities": {}}, {"protocolVersion": 7, "capabilities": {}, "serverInfo": info}])
+    return {"notifs": ns, "reply": {"result": bad}, "expect": {"raise": "invalid-result"}}
+
+
+def op_answer(rng, plain=False):
+    r = rng.random()
+    a = {"kind": "ok", "text": text(rng)} if r < 0.65 else ({"kind": "bad"} if r < 0.78 else {"kind": "error", "error": error_reply(rng)["error"]})
+    if not plain and rng.random() < 0.3:
+        a["notifs"] = [notif(rng) for _ in range(rng.randint(1, 2))]
+    if not plain and rng.random() < 0.1:
+        a["after"] = [notif(rng)]
+    a["lat"] = rng.choice(LATS)
+    return a
+
+
+def client_case(rng):
+    ops = [{"op": rng.choice(CLIENT_OPS + CLIENT_OPS[1:])} for _ in range(rng.choice([1, 2, 3, 4, 6]))]
+    for o in ops:
+        if o["op"] in ("call_tool", "get_prompt"):
+            o["name"] = text(rng) or "n"
+            o["arguments"] = rng.choice([None, {}, obj(rng, 2)])
+        if o["op"] == "read_resource":
+            o["uri"] = "file:///" + rng.choice(["a", "é", "%20x"])
+    n_fail = rng.choice([0, 0, 0, 1, 2])
+    inits = []
+    for _ in range(n_fail + 1):
+        inits.append(init_answer(rng))
+    plain = rng.random() < 0.4   # no notifications: every carrier with one message per body
+    if plain:
+        for x in inits:
+            x["notifs"] = []
+    c = {"ops": ops, "inits": inits, "answers": [op_answer(rng, plain) for _ in ops], "connect": rng.choice([False, False, True, "params"]),
+         "style": style(rng), "tie": rng.choice(TIES), "wire": {}}
+    if not plain and rng.random() < 0.6:
+        c["wire"]["json"] = {"all": True}
+    if rng.random() < 0.5:
+        c["wire"]["stdio"] = {"crlf": [rng.random() < 0.4 for _ in range(12)], "cuts": [cuts(rng) for _ in range(6)]}
+    if rng.random() < 0.5:
+        c["wire"]["sse"] = {"crlf": [rng.random() < 0.4 for _ in range(12)], "cuts": [cuts(rng) for _ in range(6)],
+                            "ack": [rng.choice([0, 0, 1, 2, 9]) for _ in range(8)]}
+    return c
+
+
+def client_directed(rng):
+    """every operation as the first one of a fresh client (lazy initialize), with connect_to_server, after
+    a failed initialize, `initialize` twice"""
+    out = []
+    ok = lambda: {"kind": "ok", "text": "t é"}
+    for op in CLIENT_OPS:
+        for connect in (False, True, "params"):
+            out.append({"ops": [{"op": op}, {"op": "init"}, {"op": op}], "inits": [], "answers": [ok(), ok()], "connect": connect, "style": STYLES[0]})
+        out.append({"ops": [{"op": op}, {"op": op}], "inits": [{"notifs": [], "reply": {"error": {"code": -32002, "message": "no"}}, "expect": {"raise": "error-reply"}}],
+                    "answers": [ok()], "connect": False, "style": STYLES[0]})
+    out.append({"ops": [{"op": "init"}, {"op": "init"}, {"op": "list_tools"}, {"op": "init"}], "inits": [], "answers": [ok()], "connect": False, "style": STYLES[0]})
+    return out
+
+
+def shrink_client(case):
+    if len(case["ops"]) > 1:
+        for i in range(len(case["ops"])):
+            c = copy.deepcopy(case)
+            del c["ops"][i]
+            yield c
+    for key in ("inits", "answers"):
+        for i in range(len(case.get(key) or [])):
+            c = copy.deepcopy(case)
+            del c[key][i]
+            yield c
+            if case[key][i].get("notifs") or case[key][i].get("after"):
+                c = copy.deepcopy(case)
+                c[key][i]["notifs"] = []
+                c[key][i].pop("after", None)
+                yield c
+    if case.get("wire"):
+        c = copy.deepcopy(case)
+        c["wire"] = {}
+        yield c
+    if case.get("connect"):
+        c = copy.deepcopy(case)
+        c["connect"] = False
+        yield c
+    for key, dflt in (("style", STYLES[0]), ("tie", "events")):
+        if case.get(key, dflt) != dflt:
+            c = copy.deepcopy(case)
+            c[key] = dflt
+            yield c
+
+
 # ------------------------------------------------------------------------------- shrinking
 
 def _simplify(v):
@@ -420,6 +533,9 @@ def _simplify(v):
 
 
 def shrink_candidates(case):
+    if "ops" in case:
+        yield from shrink_client(case)
+        return
     xs = case["xs"]
     # fewer exchanges (wire choices are positional: drop them when the shape changes)
     if len(xs) > 1:
